@@ -231,4 +231,51 @@ PROPS = {
                   "clause (a) across swaps is proved for spread factors with 0 <= spf <= 1/2 (all authorised ones: `authorized_parameters_ok`)"],
   "explanation": "Inv = active liquidity / tick gross+net / stored-tick set / price-tick agreement / empty pool / id uniqueness, preserved by every op incl. the swap loop; reachable_inv by induction",
  },
+ "C10": {
+  "modules": ["OsmoVerif.Props.C10"],
+  "min_theorems": 15,
+  "fingerprints": ["Twap.*"],
+  "engines": [{"name": "twap", "kind": "app", "n": {"quick": 5000, "thorough": 40000}, "shards": {"quick": 4, "thorough": 16}}],
+  "rule": "histories = a fresh balancer (2 or 3 assets; random / unit / power-of-two / extreme balances and weights) or concentrated pool, then real ABCI "
+          "blocks (FinalizeBlock+Commit) with irregular times (1 ms .. 13 h, sub-millisecond and equal block times, nanosecond parts): swaps, single-asset and "
+          "proportional joins, exits, CL position create / withdraw-all (drain) / refill, idle blocks, pruning passes armed through the epoch hook with keep "
+          "periods from 1 ns to 48 h and per-block deletion limits 1..200; queries (both strategies, both quote assets, ToNow) with start/end on, 1 ns / 1 ms "
+          "around, between, before the first and after the last record and around the pruning cutoff; an evaluation is one op line (record update, query, "
+          "prune, dump, getSpotPrices); non-trivial = answered query or state-changing op; distinct = distinct op lines",
+  "trusted_base": ["osmomath Exp2 / LogBase2 / SigFigRound as modelled in C13 (bit-exact, analytic bounds unproved)",
+                   "700-bit big.Float references (harness/engines/app/bigfloat_test.go) for the geometric clauses",
+                   "the pool modules' spot prices are inputs (read back from the stored record and cross-checked against the engine's own read of the pool)"],
+  "assumptions": ["PARTIAL: geometric TWAP vs the true 2^(weighted mean log2), geometric min/max and reciprocity of the two quote directions are decided by the "
+                  "oracle on the explored cases only (tolerance: half a unit of the 8th significant figure [of the 8th decimal for values >= 0.1] + 2e-18 + 1e-17 relative)",
+                  "times are representable by UnixNano; one (pool, pair) is modelled: for pools with several pairs the rejection of one pair's update stops the "
+                  "others (updateRecords), which only matters for two blocks with the same time and is not generated for such pools",
+                  "pruning is modelled as a completed pass; the engine only observes between passes"],
+  "explanation": "theorems for every history (induction over updates and pruning passes): accumulators are exact integrals of the recorded prices, arithmetic TWAP = "
+                 "truncated time-weighted mean with explicit overlap weights (incl. interpolation), between min and max, point intervals, pruning never changes an "
+                 "answer at or after the cutoff, flag iff an error record is in force, geometric TWAP = Exp2/SigFigRound closing of the weighted mean of twapLog; "
+                 "model tied to the keeper by differential run through the real app",
+ },
+ "C05": {
+  "modules": ["OsmoVerif.Props.C05"],
+  "min_theorems": 24,
+  "fingerprints": [],
+  "engines": [{"name": "router", "kind": "app", "n": {"quick": 2000, "thorough": 40000}, "shards": {"quick": 4, "thorough": 16}}],
+  "rule": "histories = 2-3 balancer + 1-2 stableswap + 2-3 concentrated pools (full-range + narrow positions) over 4-5 denoms, 3-10 prior swaps/joins/positions, "
+          "random default taker fee + per-pair overrides (MsgSetDenomPairTakerFee) + reduced-fee whitelist, then 12-25 messages: MsgSwapExactAmountIn/Out over "
+          "random walks of 1-4 hops (1 in 6 may revisit pools; ~5% malformed: empty route, unknown pool, denom not in pool), MsgSplitRouteSwapExactAmountIn/Out with 2-4 legs, "
+          "amounts from 1 unit to beyond the reserves, limits at/around the estimate (binding), fee/whitelist reconfiguration; an evaluation is one message or estimate; "
+          "every message is also executed hop by hop through 1-hop messages on a branch of the same state and all stores are digested; distinct = distinct op lines",
+  "trusted_base": ["the pool modules (balancer, stableswap, concentrated) are DATA for the model: per-hop pool answers are taken from the bank transfer / token_swapped events of the real execution "
+                   "(and from the pool modules' own Calc* quotes for the estimate passes); their correctness is C02-C04's subject, not C05's",
+                   "cosmos-sdk bank keeper, CacheContext (message atomicity is the handler's cache context; reproduced by the engine)",
+                   "TakerFeeSkim runs with no taker-fee share agreements registered (no-op); trackVolume only writes volume statistics"],
+  "assumptions": ["senders always hold enough of every denom (the model has no balances: insufficient-funds failures are not generated)",
+                  "estimate = execution is a theorem under the stated hypotheses (each pool's quote equals its swap's amount on the same state; swaps leave OTHER pools' quotes unchanged; "
+                  "distinct pools for exact-in; sender not whitelisted); that the real pool modules satisfy them is checked by the engine on every explored case, not proved",
+                  "max_in_respected holds for split routes only; for a single routed exact-out swap the maximum bounds the first pool's input, not input + taker fee (known finding, refuted by witness)"],
+  "explanation": "theorems for ALL routes and ALL pool functions (pools are arbitrary functions of an arbitrary state): the index loops of RouteExactAmountIn/Out equal the hop-after-hop composition "
+                 "of the single-pool swaps with the per-hop taker fee (incl. which hop meets the caller's limit and how estimates become per-hop outputs/maxima), split = sum of legs in sequence, "
+                 "estimate = execution (exact-in: distinct pools; exact-out: every route, decided by the first hop), min-out for routes and splits, max-in for splits, failure atomicity, "
+                 "taker fee = amount*fee rounded up (exact-in) / exactly ceil(amount/(1-fee)) (exact-out), whitelist and per-pair override semantics; model tied to the real msg server by differential run.",
+ },
 }
